@@ -39,6 +39,9 @@ pub(crate) struct InternalObserver<T> {
     observing: Incr<T>,
     weak_self: Weak<Self>,
     on_update_handlers: RefCell<HashMap<SubscriptionToken, OnUpdateHandler<T>>>,
+    /// The handler that `run_all` has taken out of the table and is currently running.
+    /// Cleared by `unsubscribe` if the handler unsubscribes itself.
+    running_handler: Cell<Option<SubscriptionToken>>,
     next_subscriber: Cell<SubscriptionToken>,
 }
 
@@ -121,7 +124,12 @@ impl<T: Value> ErasedObserver for InternalObserver<T> {
             Disallowed | Unlinked => Ok(()),
             Created | InUse => {
                 // delete from the list in either case
-                let removed = self.on_update_handlers.borrow_mut().remove(&token).is_some();
+                let mut removed = self.on_update_handlers.borrow_mut().remove(&token).is_some();
+                if !removed && self.running_handler.get() == Some(token) {
+                    // a handler unsubscribing itself: run_all will not put it back
+                    self.running_handler.set(None);
+                    removed = true;
+                }
 
                 match self.state.get() {
                     // the token was already unsubscribed: nothing left to account for
@@ -142,8 +150,11 @@ impl<T: Value> ErasedObserver for InternalObserver<T> {
         }
     }
     fn run_all(&self, input: &Node, node_update: NodeUpdateDelayed, now: StabilisationNum) {
-        let mut handlers = self.on_update_handlers.borrow_mut();
-        for (id, handler) in handlers.iter_mut() {
+        // Handlers may subscribe to or unsubscribe from this very observer, so the table must
+        // not stay borrowed while they run: each handler is taken out for the duration of its call.
+        let tokens: Vec<SubscriptionToken> =
+            self.on_update_handlers.borrow().keys().copied().collect();
+        for id in tokens {
             tracing::trace!("running update handler with id {id:?}");
             /* We have to test [state] before each on-update handler, because an on-update
             handler might disable its own observer, which should prevent other on-update
@@ -151,7 +162,16 @@ impl<T: Value> ErasedObserver for InternalObserver<T> {
             match self.state.get() {
                 Created | Unlinked => panic!(),
                 Disallowed => (),
-                InUse => handler.run(input, node_update, now),
+                InUse => {
+                    // gone if an earlier handler unsubscribed it
+                    let taken = self.on_update_handlers.borrow_mut().remove(&id);
+                    let Some(mut handler) = taken else { continue };
+                    self.running_handler.set(Some(id));
+                    handler.run(input, node_update, now);
+                    if self.running_handler.take().is_some() {
+                        self.on_update_handlers.borrow_mut().insert(id, handler);
+                    }
+                }
             }
         }
     }
@@ -177,6 +197,7 @@ impl<T: Value> InternalObserver<T> {
             state: Cell::new(Created),
             observing,
             on_update_handlers: Default::default(),
+            running_handler: Cell::new(None),
             weak_self: weak_self.clone(),
             next_subscriber: SubscriptionToken(id, 1).into(),
         })
